@@ -348,6 +348,7 @@ def register_dimensioned(reg):
   c.requires('more_than_one_dimension', 'self.num_dimensions != 1')
   c.raises('InvalidDimensionsError', ensures=[('changes_nothing', 'len(self.value_dict) == old(len(self.value_dict))')])
   c.ensures('never_accepted', 'False')
+  c.option(never_returns=True)
   c.modifies()
 
   c = reg.contract(M, 'Measurement.notify_value_set', props=['C06'], name='Measurement.notify_value_set[dimensioned]', callsite=False)
